@@ -1,15 +1,22 @@
 package checks
 
+import "os"
+
 func init() {
 	Registry["C04"] = func(c *Ctx) {
-		c.R.Rule = "Pool alone: the real TaskWorkerPool driven directly by 2-4 callers on 1-2 workers with no stop / an interrupt / a task that cancels when it ends / a direct Shutdown (plus early-clock-tick variants when callers wait in the queue), every schedule with <= 3 (quick; bound 2 complete) / 4 deviations: no panic, never more than num_workers tasks running, no task twice, Run returns its own task's result, at most 2*num_workers already accepted jobs (queue + one per worker) start after Shutdown returned. two parts. (a) scenario = (graph of <=4 nodes incl. alias / unselected node, set of failing targets, fail-fast, num_workers); each scenario runs the real dag.Walker with the real TaskWorkerPool under the controlled scheduler for EVERY choice sequence with <= d deviations (a deviation = any non-default scheduling / select / map-order choice). An execution is non-trivial when at least one command ran; distinct (scenario, observable trace) pairs are counted. (b) cache read faults at every depth of a restore, with the REAL binary: a workspace with a flat directory output (3 files), a nested directory output (3 levels), a file output and a dependant is built, all outputs are deleted, then EVERY non-empty subset (quick: all subsets of size <= 3 and >= n-1; thorough: all) of the cache entries (blobs, tree blobs, target results) is removed and the build re-run: it must exit (45 s ceiling only classifies a hang), exit 0 by re-executing what was lost, and produce the right outputs. (c) failure modes with the real binary: histories of <= 3/4 operations over {command exits non-zero (also for a target that declares a timeout which does not expire), declared output missing, timeout, build, build --fail-fast} on the chain workspace: grog exits (60 s ceiling only classifies a hang)."
+		c.R.Rule = "Pool alone: the real TaskWorkerPool driven directly by 2-4 callers on 1-2 workers with no stop / an interrupt / a task that cancels when it ends / a direct Shutdown (plus early-clock-tick variants when callers wait in the queue), every schedule with <= 3 (quick; bound 2 complete) / 4 deviations: no panic, never more than num_workers tasks running, no task twice, Run returns its own task's result, at most 2*num_workers already accepted jobs (queue + one per worker) start after Shutdown returned. two parts. (a) scenario = (graph of <=4 nodes incl. alias / unselected node, set of failing targets, fail-fast, num_workers); each scenario runs the real dag.Walker with the real TaskWorkerPool under the controlled scheduler for EVERY choice sequence with <= d deviations (a deviation = any non-default scheduling / select / map-order choice). An execution is non-trivial when at least one command ran; distinct (scenario, observable trace) pairs are counted. (b) cache read faults at every depth of a restore, with the REAL binary: a workspace with a flat directory output (3 files), a nested directory output (3 levels), a file output and a dependant is built, all outputs are deleted, then EVERY non-empty subset (quick: all subsets of size <= 3 and >= n-1; thorough: all) of the cache entries (blobs, tree blobs, target results) is removed and the build re-run: it must exit (45 s ceiling only classifies a hang), exit 0 by re-executing what was lost, and produce the right outputs. (c) failure modes with the real binary: histories of <= 3/4 operations over {command exits non-zero (also for a target that declares a timeout which does not expire), declared output missing, timeout, build, build --fail-fast} on the chain workspace: grog exits (60 s ceiling only classifies a hang). Large builds (real binary, plain console): 40 / 70 / 130 (thorough: 260, 520) trivial targets as a wide graph, a chain, and a wide graph whose last target fails, num_workers 1 / default: the build ends within 120 s with the exit status of its targets and every command ran once."
 		c.R.Assume("commands are stubs with one scheduling point between start and end (latency = any number of other steps, including zero)", "scheduling points sit at every lock, once, wait-group wait, channel operation, select, close and goroutine start of graph_walker.go and task_worker_pool.go; atomics are not scheduling points", "goroutine interleavings beyond the deviation bound are not covered")
+		if os.Getenv("VERIF_PART") == "many-targets" { // development aid: this part alone
+			c04ManyTargets(c)
+			return
+		}
 		walkCheckBudget("C04", []string{"C04:"}, 2, 3, 40, 420)(c)
 		// the pool alone (callers x workers x {no stop, interrupt, fail-fast-like cancel by a task, Shutdown}), deviation
 		// bound 3 / 4: no internal crash (send on a closed channel), callers return when nothing stops the pool
 		poolCheck(c, "C04", []string{"C04:"})
 		c04MissingBlobs(c)
 		c04SharedDependencyOrders(c)
+		c04ManyTargets(c)
 		// the schedule dimension of a failing restore (real Registry.LoadOutputs under the controlled scheduler): it returns
 		loadQuiescence(c, "C04", "load-outputs-never-returns")
 		// (c) every failure mode of a real command must end the build: exit code, missing output and
